@@ -3,14 +3,14 @@
 (* line per verification point) must be a behaviour of Bucket.tla, and every *)
 (* invariant of Bucket.tla must hold in every state of it.                   *)
 EXTENDS Bucket, Json, IOUtils, TLCExt, SequencesExt
-VARIABLE l
+VARIABLES l, dmark   \* dmark: length of `delivered` at the last whole-flush observation (flush.vals.post)
 Rec == ndJsonDeserialize(IOEnv.TRACE)
-tvars == <<vars, l>>
+tvars == <<vars, l, dmark>>
 
 Ev == Rec[l].ev
 P == Rec[l].p
 A == Rec[l].a
-Step == l' = l + 1
+Step == l' = l + 1 /\ UNCHANGED dmark
 Obs(cond) == cond /\ Step /\ UNCHANGED vars     \* a ".post" line: assertion on the current state
 Known(tag, what) == PrintT(<<"KNOWN", tag, what>>)
 
@@ -35,6 +35,19 @@ ResetTo(n) ==
   /\ snapOK' = TRUE /\ emptyOK' = TRUE /\ einfl' = FALSE /\ emptyStrict' = TRUE /\ eres' = FALSE
   /\ clears' = 0 /\ reads' = 0 /\ empties' = 0
 
+\* When the callback of clear_with cannot be observed directly (the DogStatsD exporter writes the values into
+\* payloads): the delivery step is taken together with the following next-pointer load ...
+CDeliverNext ==
+  /\ pc[Clearer] = "c_deliver"
+  /\ delivered' = delivered \o Data(cur[Clearer], dn[Clearer])
+  /\ dnOf' = [dnOf EXCEPT ![cur[Clearer]] = dn[Clearer]]
+  /\ cur' = [cur EXCEPT ![Clearer] = next[cur[Clearer]]]
+  /\ IF next[cur[Clearer]] = Null
+       THEN clears' = clears + 1 /\ pc' = [pc EXCEPT ![Clearer] = "c_load"]
+       ELSE pc' = [pc EXCEPT ![Clearer] = "c_len"] /\ UNCHANGED clears
+  /\ UNCHANGED <<shared, lt, nb, idx, k, llen, dn,
+                 pre, seen, completed, blockOf, detached, rstart, estart, snapOK, emptyOK, einfl, emptyStrict, eres, reads, empties>>
+
 SeqToBag(s) == [v \in Range(s) |-> Cardinality({i \in DOMAIN s : s[i] = v})]
 NewPart(old, new) == SubSeq(new, Len(old) + 1, Len(new))
 
@@ -53,7 +66,7 @@ FreeOK(r) ==
 
 TraceNext ==
   /\ l <= Len(Rec)
-  /\ CASE Ev = "reset"            -> ResetTo(A[1]) /\ Step
+  /\ CASE Ev = "reset"            -> ResetTo(A[1]) /\ l' = l + 1 /\ dmark' = 0
        [] Ev = "start.pre"        -> Obs(TRUE)
        [] Ev = "push.load.pre"    -> PLoad(P) /\ Step
        [] Ev = "push.load.post"   -> Obs(lt[P] = A[1])
@@ -77,7 +90,14 @@ TraceNext ==
                                        ELSE cur[P] = A[1] /\ (WLen(P) \/ WDLen(P)) /\ Step
        [] Ev = "blk.wr.pre"       -> cur[P] = A[1] /\ WWr(P) /\ Step
        [] Ev = "deliver.post"     -> CDeliver /\ Step /\ NewPart(delivered, delivered') = A
-       [] Ev = "clr.next.pre"     -> cur[Clearer] = A[1] /\ CNext /\ Step
+       [] Ev = "clr.next.pre"     -> cur[Clearer] = A[1] /\ (IF pc[Clearer] = "c_deliver" THEN CDeliverNext ELSE CNext) /\ Step
+       \* ... and everything one flush sent is compared with what the clears delivered since the previous flush
+       [] Ev = "flush.vals.post"  -> (IF dmark >= Len(delivered) THEN <<>> ELSE SubSeq(delivered, dmark + 1, Len(delivered))) = A
+                                     /\ dmark' = Len(delivered) /\ l' = l + 1 /\ UNCHANGED vars
+       [] Ev = "flush.begin.post" -> Obs(TRUE)
+       [] Ev = "flush.bad.post"   -> FALSE                      \* a payload line that is not a well-formed histogram message
+       [] Ev = "quiet"            -> Obs(Quiescent /\ dmark = Len(delivered)
+                                         /\ (IF LateLost = {} THEN TRUE ELSE Known("CF05a", LateLost)))
        [] Ev = "clr.next.post"    -> Obs(cur[Clearer] = A[1])
        [] Ev = "clr.done.post"    -> Obs(pc[Clearer] = "c_load")
        [] Ev = "rd.load.pre"      -> RLoad /\ Step
@@ -97,7 +117,7 @@ TraceNext ==
        [] Ev = "free"             -> Obs(FreeOK(Rec[l]))
        [] OTHER -> FALSE          \* livelock / stuck / panic / unknown site: not a behaviour
 
-TraceInit == Init /\ l = 1
+TraceInit == Init /\ l = 1 /\ dmark = 0
 TraceSpec == TraceInit /\ [][TraceNext]_tvars
 TraceAccepted ==
   LET d == TLCGet("stats").diameter IN
